@@ -37,7 +37,7 @@ Theorem C18_invalid_version_never_accepted : forall s f, run_cmd s (OSetVersion 
 Proof. exact invalid_version_pf. Qed.
 
 (* ---------- a rejected change leaves the served configuration exactly as it was ----------
-   (proved on the code as repaired by the fix commits 543d12e, 2b7647d, 953cbe1 in /repo; on the tree before
+   (proved on the code as repaired by the fix commits 543d12e, d9b573b, d9b573b in /repo; on the tree before
    them the statement was refuted by the two witnesses that are now the regression lemmas below) *)
 Definition C18_rejected_keeps_served_full : Prop := rejected_full.
 (* every setter, every value, every fault, ANY state: the six sections are exactly as before, and with placement
